@@ -951,6 +951,7 @@ def differential(chk, progs, judge=None):
     the compiled code; the reference semantics (Coq).  Records correspondence disagreements and oracle
     failures (reference vs real behaviour).  `judge(p, src, impl, ref)` may veto/rename a failure key."""
     mods, runs, refs = model_eval_many(progs, ["compile", "run", "ref"])
+    pending = []            # behavioural failures, reported smallest program first
     for p, m, r, f in zip(progs, mods, runs, refs):
         src = to_hy(p["e"])
         p["src"] = src
@@ -1006,7 +1007,9 @@ def differential(chk, progs, judge=None):
             if judge is not None:
                 key = judge(p, src, ir, f)
             if key is not None:
-                chk.fail(key, dict(inp, expr=p["e"]), ir, f, how)
+                pending.append((len(src), len(pending), (key, dict(inp, expr=p["e"]), ir, f, how)))
+    for _n, _i, args in sorted(pending, key=lambda t: t[:2]):
+        chk.fail(*args)
 
 
 def has_empty_else_try(e):
